@@ -67,19 +67,26 @@ def rule_args(ctx: Ctx, repo: Repo) -> None:
     combos = list(itertools.product((False, True), repeat=2))  # (annotated, traced)
     for strategy in (REPLICATE, IGNORE, OMIT):
         for has_self in (False, True):
+            specs = []
             for first, rot in itertools.product(combos, range(len(combos))):
                 # position 0 varies over all (annotated, traced); positions 1..4 see every combo in every rotation
                 rc = combos[rot:] + combos[:rot]
-                spec = [("p0",) + first] + [(f"p{i + 1}",) + c for i, c in enumerate(rc)]
+                specs.append(([("p0",) + first] + [(f"p{i + 1}",) + c for i, c in enumerate(rc)], True))
+            # nothing was traced for any parameter (an empty mapping): the strategy still decides about source annotations
+            for anns in itertools.product((False, True), repeat=3):
+                specs.append(([(f"p{i}", a, False) for i, a in enumerate(anns)], False))
+            for spec, with_gone in specs:
                 params = [param(n, A_(n) if a else EMPTY) for n, a, _ in spec]
-                arg_types = R("dict", items=tuple((K(n), T_(n)) for n, _, t in spec if t) + ((K("gone"), T_("gone")),))
+                arg_types = R("dict", items=tuple((K(n), T_(n)) for n, _, t in spec if t) + (((K("gone"), T_("gone")),) if with_gone else ()))
                 res = StubScenario(repo, "update_signature_args").result({ps[0]: sig(params, A_("ret")), ps[1]: arg_types, ps[2]: K(has_self), ps[3]: strategy})
                 lab = f"{strategy.name.split('.')[-1]} has_self={has_self}"
                 if not (isinstance(res, R) and res.kind == "sig"):
                     ctx.violate("R-C13.1", fi.fq, f"{lab}: {str(res)[:100]}", "update_signature_args does not return a signature")
                     continue
                 new = res.fields["parameters"]
-                items = list(new.fields["items"]) if isinstance(new, R) and new.kind == "list" else None
+                items = list(new.fields["items"]) if isinstance(new, R) and new.kind == "list" else (list(new.v) if isinstance(new, K) and isinstance(new.v, tuple) else None)
+                if isinstance(new, R) and new.kind == "dict":
+                    items = [v for _, v in new.fields["items"]]  # the signature's own ordered mapping, handed back as it was
                 if items is None:
                     ctx.violate("R-C13.1", fi.fq, f"{lab}: parameters={str(new)[:100]}", "the new parameter list is not a list of parameters")
                     continue
@@ -265,3 +272,6 @@ def run(ctx: Ctx, repo: Repo, tier: str) -> None:
     rule_optional(ctx, repo)
     rule_flags(ctx, repo)
     rule_forwarding(ctx, repo)
+    # the traced types reach the signature update for every parameter of the signature (C10's rule on the same function)
+    from . import c10 as _c10
+    _c10.rule_params_ignored(ctx, repo)
